@@ -249,7 +249,19 @@ def canon(w):
 PREBUILT = [('rebase', 'I1', ('I0',)), ('rebase', 'I2', ('I1', 'I0')), ('rebase', 'I3', ('I1',))]
 
 
+def any_without_c3(w):
+    """Does some specification of the graph *as it is now* lack a C3 order?"""
+    from . import c03
+    from .. import gen
+    for name, s in w.specs.items():
+        graph = c03._graph(s, w.names)
+        if gen.c3_or_none(name, graph, {}) is None:
+            return name
+    return None
+
+
 def run_hist(cfg, hist):
+    from zope.interface import ro as _ro
     w = World()
     w.max_observers = cfg.get('max_observers', 1)
     if cfg.get('prebuilt'):
@@ -257,10 +269,29 @@ def run_hist(cfg, hist):
         # (I2 lists I0 directly and through I1) and a second child of I1
         for op in PREBUILT:
             apply(w, op)
+    strict = cfg.get('oracle') == 'c03-strict'
     for op in hist:
+        if strict:
+            # ZOPE_INTERFACE_STRICT_IRO=1: an operation is refused exactly when it
+            # leaves some specification without a C3 order; a refused operation
+            # ends the history (what state it leaves behind is not specified)
+            try:
+                ok = apply(w, tuple(op))
+            except _ro.InconsistentResolutionOrderError:
+                w.refresh()
+                if any_without_c3(w):
+                    return w, 'disabled'
+                return w, ('strict-env-refused-an-operation-that-leaves-every-order-consistent', op)
+            if not ok:
+                return w, 'disabled'
+            w.refresh() if op[0] == 'dp' else None
+            bad = any_without_c3(w)
+            if bad:
+                return w, ('strict-env-accepted-an-operation-that-leaves-a-specification-without-C3', op, bad)
+            continue
         if not apply(w, tuple(op)):
             return w, 'disabled'
-    if cfg.get('oracle') == 'c03':
+    if cfg.get('oracle') in ('c03', 'c03-strict'):
         return w, check_c03(w)
     return w, (check_c02(w) or fresh_equiv(w))
 
@@ -268,7 +299,7 @@ def run_hist(cfg, hist):
 def expand(arg):
     cfg, hists = arg
     ops = all_ops(cfg)
-    pfx = 'C03:' if cfg.get('oracle') == 'c03' else 'C02:'
+    pfx = 'C03:' if cfg.get('oracle') in ('c03', 'c03-strict') else 'C02:'
     viol = []
     new = []
     local = set()
